@@ -30,7 +30,12 @@ def outcome(fn):
     return {"k": "tree", "dump": ast.dump(t, include_attributes=True) if t is not None else None}
 d = Path(sys.argv[1])
 res = []
-for p in sorted(d.glob("*.src")):
+import io as _io
+from peg_parser.tokenize import generate_tokens as _gt
+from peg_parser.tokenizer import Tokenizer as _Tz
+for _i, p in enumerate(sorted(d.glob("*.src"))):
+    if _i % 25 == 0:
+        outcome(lambda: XonshParser(_Tz(_gt(_io.StringIO("# settings\nq = (1,\n  2)\nr = 3\n").readline))).parse("file"))
     data = p.read_bytes()
     # what the string entry point is given: the file's text as Path.read_text(encoding="utf-8") returns it
     # (UTF-8, universal newlines) - the same content a Python user holds after reading the file
